@@ -68,7 +68,7 @@ def main():
         seen = []
         for _ in range(reps):
             args = mkargs(arrays)
-            signal.alarm(60)
+            signal.alarm(600)
             try:
                 d, v = digest(getattr(einx, op)(desc, *args, **kw))
             except BaseException as e:  # noqa: BLE001
